@@ -23,8 +23,11 @@ import traceback
 from pathlib import Path
 
 VERIF = Path(__file__).resolve().parent.parent
-EVIDENCE = VERIF / 'evidence'
-REPLAYS = VERIF / 'replays'
+# VERIF_OUT redirects what a run writes (used by the sensitivity tools, which run the checks against patched
+# scratch copies and must not overwrite the evidence of the real tree); unset for every registered command
+_OUT = Path(os.environ['VERIF_OUT']) if os.environ.get('VERIF_OUT') else VERIF
+EVIDENCE = _OUT / 'evidence'
+REPLAYS = _OUT / 'replays'
 KNOWN = VERIF / 'known_findings.json'
 
 
@@ -350,7 +353,7 @@ class Prop:
 
 
 def write_evidence(prop, tier, seed, cov, violations, wall, assumptions, known_lines):
-    EVIDENCE.mkdir(exist_ok=True)
+    EVIDENCE.mkdir(parents=True, exist_ok=True)
     ev = {
         'property_id': prop.ID,
         'tier': tier,
@@ -371,7 +374,10 @@ def shard_main(prop: Prop, tier, seed, shard, nshards, out_path):
     t0 = time.time()
     strat = prop.strategy(tier)
     if strat is not None:
-        drive(ctx, strat, prop.budget(tier), seed * 1000 + shard)
+        n = prop.budget(tier)
+        if os.environ.get('VERIF_BUDGET_SCALE'):     # sensitivity tools only (first pass of a mutant sweep)
+            n = max(20, int(n * float(os.environ['VERIF_BUDGET_SCALE'])))
+        drive(ctx, strat, n, seed * 1000 + shard)
     prop.extra(ctx)
     # shrink fresh buckets
     viol = []
@@ -459,7 +465,7 @@ def merge_and_report(prop: Prop, tier, seed, parts, wall, replay_mode=False):
     if not cov['samples']:
         cov['samples'] = extra_cov.get('samples', ['(no sample recorded)'])
     rc = 0
-    REPLAYS.mkdir(exist_ok=True)
+    REPLAYS.mkdir(parents=True, exist_ok=True)
     for oracle, v in sorted(viols.items()):
         rp = REPLAYS / f"{prop.ID}-{oracle.replace('/', '_').replace(':', '_')[:60]}-{jhash(v['case'])}.json"
         rp.write_text(json.dumps({'property': prop.ID, 'oracle': oracle, 'case': v['case'],
